@@ -92,6 +92,26 @@ Proof. intros N E G. rewrite ops_eq_unfold in E. unfold agree_ops in G. split_an
   inversion P2 as [|? ? ? ? [_ Ha] P2t]; subst. simpl in *. subst k'.
   rewrite (is_equal_core q e1 e2 He Ha), (IH P2t). reflexivity. Qed.
 
+(* ------------------------------------------------------------------ rename maps *)
+Lemma smap_eq_sym q m1 m2 : smap_eq q m1 m2 = smap_eq q m2 m1.
+Proof. unfold smap_eq. destruct (q_maps_unordered q); [|apply eqb_sym].
+  rewrite (set_eqb_sym (map fst m2)). destruct (set_eqb (map fst m1) (map fst m2)) eqn:K; [|reflexivity]. simpl.
+  rewrite (forallb_same_set _ (map fst m1) (map fst m2)) by (apply set_eqb_spec, K).
+  apply forallb_ext_in. intros k _. apply eqb_sym. Qed.
+Lemma smap_eq_refl q m : smap_eq q m m = true.
+Proof. unfold smap_eq. destruct (q_maps_unordered q); [|apply eqb_refl]. rewrite set_eqb_refl. simpl.
+  apply forallb_forall. intros k _. apply eqb_refl. Qed.
+(* equal maps have the same lookups *)
+Lemma smap_eq_lookups q m1 m2 : smap_eq q m1 m2 = true -> forall k, dict_get m1 k = dict_get m2 k.
+Proof. unfold smap_eq. destruct (q_maps_unordered q); intros E k; [|rewrite (proj1 (eqb_true _ _) E); reflexivity].
+  apply andb_true_iff in E. destruct E as [K F]. pose proof (proj1 (set_eqb_spec _ _) K k) as KS.
+  destruct (in_dec eq_dec k (map fst m1)) as [I|NI].
+  - rewrite forallb_forall in F. exact (proj1 (eqb_true _ _) (F k I)).
+  - assert (~ In k (map fst m2)) as NI2 by (intros I2; apply NI, KS, I2).
+    apply dict_get_None in NI. apply dict_get_None in NI2. congruence. Qed.
+Lemma smap_same q m1 m2 : smap_eq q m1 m2 = true -> (if q_maps_unordered q then eqb m1 m2 else true) = true -> m1 = m2.
+Proof. unfold smap_eq. destruct (q_maps_unordered q); intros E G; [exact (proj1 (eqb_true _ _) G)|exact (proj1 (eqb_true _ _) E)]. Qed.
+
 (* ------------------------------------------------------------------ record maps *)
 Lemma opt_recspec_eqb_sym a b : opt_recspec_eqb a b = opt_recspec_eqb b a.
 Proof. destruct a, b; simpl; try reflexivity. apply eqb_sym. Qed.
@@ -122,9 +142,8 @@ Lemma eop_eqb_sym q a : forall b, eop_eqb q a b = eop_eqb q b a.
 Proof. induction a as [n cs ql|s IH ops p o r w|s IH ops gb|s IH e|s IH cs|s IH cs|s IH m|s IH m d|s IH cs r l
                       |x IHx y IHy oa ob jt|x IHx y IHy ic an bn|s IH rm];
     intros [n' cs' ql'|s' ops' p' o' r' w'|s' ops' gb'|s' e'|s' cs'|s' cs'|s' m'|s' m' d'|s' cs' r' l'
-           |x' y' oa' ob' jt'|x' y' ic' an' bn'|s' rm']; try reflexivity;
-    cbn [eop_eqb];
-    rewrite ?(eqb_sym (ecolumn_names _) (ecolumn_names _)) at 1.
+           |x' y' oa' ob' jt'|x' y' ic' an' bn'|s' rm'];
+    cbn [eop_eqb]; try (match goal with |- false = false => reflexivity end).
   - rewrite (String.eqb_sym n n'), (eqb_sym cs cs'), (eqb_sym ql ql'). reflexivity.
   - rewrite (IH s'), (ops_eq_sym q ops ops'), (eqb_sym p p'), (eqb_sym o o'), (eqb_sym r r').
     rewrite (eqb_sym (ecolumn_names (EExtend s ops p o r w))). destruct w, w'; reflexivity.
@@ -132,8 +151,8 @@ Proof. induction a as [n cs ql|s IH ops p o r w|s IH ops gb|s IH e|s IH cs|s IH 
   - rewrite (IH s'), (is_equal_sym q e e'), (eqb_sym (ecolumn_names (ESelectRows s e))). reflexivity.
   - rewrite (IH s'), (eqb_sym cs cs'), (eqb_sym (ecolumn_names (ESelectCols s cs))). reflexivity.
   - rewrite (IH s'), (eqb_sym cs cs'), (eqb_sym (ecolumn_names (EDropCols s cs))). reflexivity.
-  - rewrite (IH s'), (eqb_sym m m'), (eqb_sym (ecolumn_names (ERename s m))). reflexivity.
-  - rewrite (IH s'), (eqb_sym m m'), (eqb_sym d d'), (eqb_sym (ecolumn_names (EMapCols s m d))). reflexivity.
+  - rewrite (IH s'), (smap_eq_sym q m m'), (eqb_sym (ecolumn_names (ERename s m))). reflexivity.
+  - rewrite (IH s'), (smap_eq_sym q m m'), (eqb_sym d d'), (eqb_sym (ecolumn_names (EMapCols s m d))). reflexivity.
   - rewrite (IH s'), (eqb_sym cs cs'), (eqb_sym r r'), (eqb_sym l l'), (eqb_sym (ecolumn_names (EOrder s cs r l))). reflexivity.
   - rewrite (IHx x'), (IHy y'), (eqb_sym oa oa'), (eqb_sym ob ob'), (String.eqb_sym jt jt'),
       (eqb_sym (ecolumn_names (EJoin x y oa ob jt))). reflexivity.
@@ -145,7 +164,7 @@ Proof. induction a as [n cs ql|s IH ops p o r w|s IH ops gb|s IH e|s IH cs|s IH 
 Lemma eop_eqb_refl q a : (nan_matters q = true -> nan_free a = true) -> eop_eqb q a a = true.
 Proof. induction a as [n cs ql|s IH ops p o r w|s IH ops gb|s IH e|s IH cs|s IH cs|s IH m|s IH m d|s IH cs r l
                       |x IHx y IHy oa ob jt|x IHx y IHy ic an bn|s IH rm]; intros N; cbn [eop_eqb];
-    rewrite ?eqb_refl, ?String.eqb_refl, ?Bool.eqb_reflx; cbn [andb].
+    rewrite ?eqb_refl, ?String.eqb_refl, ?Bool.eqb_reflx, ?smap_eq_refl; cbn [andb].
   - destruct (q_table_key_only q); reflexivity.
   - rewrite ops_eq_refl, IH; [reflexivity| |]; intros Q; specialize (N Q); simpl in N; apply andb_true_iff in N; tauto.
   - rewrite ops_eq_refl, IH; [reflexivity| |]; intros Q; specialize (N Q); simpl in N; apply andb_true_iff in N; tauto.
@@ -164,18 +183,24 @@ Lemma eop_same_core q a : forall b, wfb a = true -> eop_eqb q a b = true -> agre
 Proof. induction a as [n cs ql|s IH ops p o r w|s IH ops gb|s IH e|s IH cs|s IH cs|s IH m|s IH m d|s IH cs r l
                       |x IHx y IHy oa ob jt|x IHx y IHy ic an bn|s IH rm];
     intros [n' cs' ql'|s' ops' p' o' r' w'|s' ops' gb'|s' e'|s' cs'|s' cs'|s' m'|s' m' d'|s' cs' r' l'
-           |x' y' oa' ob' jt'|x' y' ic' an' bn'|s' rm'] W E G; try discriminate;
-    cbn [eop_eqb agree wfb core] in *.
+           |x' y' oa' ob' jt'|x' y' ic' an' bn'|s' rm'] W E G;
+    cbn [eop_eqb agree wfb core] in *; try discriminate.
   - destruct (q_table_key_only q); split_andb; eqb_to_eq; subst; reflexivity.
-  - split_andb. eqb_to_eq. subst. apply nodupb_NoDup in H.
+  - split_andb. eqb_to_eq. subst.
+    match goal with H : nodupb _ = true |- _ => apply nodupb_NoDup in H end.
     rewrite (IH s') by assumption. rewrite (ops_same_core q ops ops') by assumption. reflexivity.
-  - split_andb. eqb_to_eq. subst. apply nodupb_NoDup in H.
+  - split_andb. eqb_to_eq. subst.
+    match goal with H : nodupb _ = true |- _ => apply nodupb_NoDup in H end.
     rewrite (IH s') by assumption. rewrite (ops_same_core q ops ops') by assumption. reflexivity.
   - split_andb. rewrite (IH s') by assumption. rewrite (is_equal_core q e e') by assumption. reflexivity.
   - split_andb. eqb_to_eq. subst. rewrite (IH s') by assumption. reflexivity.
   - split_andb. eqb_to_eq. subst. rewrite (IH s') by assumption. reflexivity.
-  - split_andb. eqb_to_eq. subst. rewrite (IH s') by assumption. reflexivity.
-  - split_andb. eqb_to_eq. subst. rewrite (IH s') by assumption. reflexivity.
+  - split_andb. eqb_to_eq. subst.
+    match goal with H : smap_eq q m m' = true, H2 : (if q_maps_unordered q then _ else true) = true |- _ => rewrite (smap_same q m m' H H2) end.
+    rewrite (IH s') by assumption. reflexivity.
+  - split_andb. eqb_to_eq. subst.
+    match goal with H : smap_eq q m m' = true, H2 : (if q_maps_unordered q then _ else true) = true |- _ => rewrite (smap_same q m m' H H2) end.
+    rewrite (IH s') by assumption. reflexivity.
   - split_andb. eqb_to_eq. subst. rewrite (IH s') by assumption. reflexivity.
   - split_andb. eqb_to_eq. subst. rewrite (IHx x'), (IHy y') by assumption. reflexivity.
   - split_andb. eqb_to_eq. subst. rewrite (IHx x'), (IHy y') by assumption. reflexivity.
@@ -189,7 +214,8 @@ Lemma agree_fixed a : forall b, agree q_fixed a b = true.
 Proof. induction a as [n cs ql|s IH ops p o r w|s IH ops gb|s IH e|s IH cs|s IH cs|s IH m|s IH m d|s IH cs r l
                       |x IHx y IHy oa ob jt|x IHx y IHy ic an bn|s IH rm];
     intros [n' cs' ql'|s' ops' p' o' r' w'|s' ops' gb'|s' e'|s' cs'|s' cs'|s' m'|s' m' d'|s' cs' r' l'
-           |x' y' oa' ob' jt'|x' y' ic' an' bn'|s' rm']; try reflexivity; cbn [agree];
+           |x' y' oa' ob' jt'|x' y' ic' an' bn'|s' rm']; cbn [agree q_maps_unordered q_table_key_only q_fixed];
+    try (match goal with |- true = true => reflexivity end);
     rewrite ?agree_ops_fixed, ?agree_expr_fixed, ?IH, ?IHx, ?IHy; reflexivity. Qed.
 
 Lemma eop_same_core_fixed a b : wfb a = true -> eop_eqb q_fixed a b = true -> core a = core b.
